@@ -465,6 +465,7 @@ impl DecMode {
             MouseSGR,
             AltScreen,
             SynchronizedOutput,
+            BracketedPaste,
         ]
         .iter()
         {
